@@ -184,3 +184,64 @@ func (e *c15Eval) ssMapEntryIndependence(r *fw.Rand) string {
 	}
 	return text
 }
+
+// c15AltSpelling returns another literal of the same scalar value (base prefix for integers, exponent form for floats,
+// one-letter form for bools); ok=false when there is none.
+func c15AltSpelling(s c15Scalar, v reflect.Value) (string, bool) {
+	switch {
+	case s.dur:
+		return "", false
+	case s.isInt():
+		x := v.Int()
+		if x < 0 {
+			return "-0x" + strconv.FormatUint(uint64(-(x+1))+1, 16), true
+		}
+		return "0x" + strconv.FormatInt(x, 16), true
+	case s.isUint():
+		return "0b" + strconv.FormatUint(v.Uint(), 2), true
+	case s.isFloat():
+		f := v.Float()
+		if math.IsNaN(f) || math.IsInf(f, 0) {
+			return "", false
+		}
+		alt := strconv.FormatFloat(f, 'e', -1, s.floatBits())
+		return alt, alt != c15Canon(v)
+	case s.kind == reflect.Bool:
+		if v.Bool() {
+			return "T", true
+		}
+		return "F", true
+	}
+	return "", false
+}
+
+// mapKeySpelling: which literal spells a key must not matter. (1) one entry with the key in its canonical spelling and
+// in another spelling gives the same map; (2) a list naming one key value twice gives the same outcome (error or not,
+// and the same map) whether the second mention repeats the spelling or uses another one.
+func (e *c15Eval) mapKeySpelling(k, v c15Scalar, key, v1, v2 reflect.Value) string {
+	alt, ok := c15AltSpelling(k, key)
+	if !ok {
+		return ""
+	}
+	mt := reflect.MapOf(k.typ, v.typ)
+	canon := c15Canon(key)
+	q := strconv.Quote
+	val1, val2 := q(c15Canon(v1)), q(c15Canon(v2))
+	wit := map[string]any{"type": mt.String(), "key": canon, "other_spelling": alt}
+	a, aerr := parse.Map(q(canon)+":"+val1, mt)
+	b, berr := parse.Map(q(alt)+":"+val1, mt)
+	e.count("comparisons", 2)
+	e.count("map_key_spellings_checked", 1)
+	if (aerr != nil) != (berr != nil) || (aerr == nil && !c15Equal(a, b)) {
+		e.fail("map-key-spelling-changes-the-result:"+k.name, fmt.Sprintf("Map(%s:%s) -> %s err=%v; Map(%s:%s) -> %s err=%v", q(canon), val1, c15Show(a), aerr, q(alt), val1, c15Show(b), berr), wit)
+		return alt
+	}
+	same := q(canon) + ":" + val1 + "," + q(canon) + ":" + val2
+	other := q(canon) + ":" + val1 + "," + q(alt) + ":" + val2
+	c, cerr := parse.Map(same, mt)
+	d, derr := parse.Map(other, mt)
+	if (cerr != nil) != (derr != nil) || (cerr == nil && !c15Equal(c, d)) {
+		e.fail("repeated-map-key-outcome-depends-on-its-spelling:"+k.name, fmt.Sprintf("Map(%s) -> %s err=%v; Map(%s) -> %s err=%v", strconv.Quote(same), c15Show(c), cerr, strconv.Quote(other), c15Show(d), derr), wit)
+	}
+	return other
+}
